@@ -19,7 +19,13 @@ import tempfile
 
 import numpy as np
 
-from ..oracles import close
+from ..oracles import close as _close
+
+
+def close(a, b, tol=1e-6):
+    """the CLI must report the API's number: NaN reported for NaN counts as the same number"""
+    a, b = float(a), float(b)
+    return (a != a and b != b) or _close(a, b, tol)
 from ..runner import h
 from ..serial import serial_pool
 
@@ -39,13 +45,17 @@ META = {
 OPTIONS = {  # name: [base, alternatives...]
     "a": [1.0, 3.0], "b": [1.0, 2.0], "e": [1.0, 0.5], "p": [0.3, 0.15], "n": [3, 5],
     "d": ["absolute", "numerical", "levenshtein"], "m": [False, True], "c": [False, True], "k": [False, True],
-    "seed": [7, 8], "s": [",", ";"], "out": ["stdout", "csv", "json"], "fmt": ["csv", "rttm"], "files": [1, 2],
+    "seed": [7, 8], "s": [",", ";"], "out": ["stdout", "csv", "json"], "fmt": ["csv", "rttm"], "files": [1, 2, "2r", 3],
 }
 ROWS = {
     "f1": [("a", "1", 0, 3), ("a", "2", 5, 8), ("a", "10", 10, 12), ("b", "1", 0.5, 3), ("b", "10", 5, 8.5),
            ("c", "2", 0, 2.5), ("c", "2", 5.5, 8), ("c", "10", 10, 12.5)],
-    "f2": [("u", "3", 0, 2), ("u", "1", 4, 6), ("v", "3", 0.25, 2), ("v", "2", 4, 7)],
+    # f2: categories a strict subset of f1's with a smaller numeric range; f3: a superset with a wider one
+    # (state carried from one input file to the next inside one invocation would show)
+    "f2": [("u", "2", 0, 2), ("u", "1", 4, 6), ("v", "2", 0.25, 2), ("v", "1", 4, 7), ("v", "2", 9, 10)],
+    "f3": [("p", "30", 0, 2), ("p", "1", 4, 6), ("q", "10", 0.25, 2), ("q", "2", 4, 7), ("q", "30", 8, 9)],
 }
+FILESETS = {1: ["f1"], 2: ["f1", "f2"], "2r": ["f2", "f1"], 3: ["f3", "f1", "f2"]}
 
 
 def base_point():
@@ -82,7 +92,7 @@ def configs(tier):
 
 def write_inputs(d, cfg):
     paths = []
-    for name in ["f1", "f2"][: cfg["files"]]:
+    for name in FILESETS[cfg["files"]]:
         if cfg["fmt"] == "csv":
             p = os.path.join(d, name + ".csv")
             with open(p, "w", newline="") as f:
